@@ -357,9 +357,127 @@ impl NodeCtx {
                 file.write_all(&bytes).await?;
                 file.flush().await?;
                 app.raft_store
-                    .finalize_snapshot_installation(op["index"].as_u64().unwrap_or(0), op["term"].as_u64().unwrap_or(1), None, id, file)
+                    .finalize_snapshot_installation(op["index"].as_u64().unwrap_or(0), op["term"].as_u64().unwrap_or(1), op["delete_through"].as_u64(), id, file)
                     .await?;
                 json!({"bytes": bytes.len()})
+            }
+            // ---- what the raft core reads from its storage when it starts: end of the log, applied index, hard state, membership;
+            // plus a walk over the whole log (contiguity, kinds) and the snapshot the catalogue points at
+            "store_state" => {
+                let st = app.raft_store.get_initial_state().await?;
+                let mut members: Vec<u64> = st.membership.members.iter().copied().collect();
+                members.sort();
+                let entries = app.raft_store.get_log_entries(0, st.last_log_index.saturating_add(2)).await?;
+                let mut contiguous = true;
+                let mut prev: Option<u64> = None;
+                let mut pointers = vec![];
+                let mut normals = 0u64;
+                for e in entries.iter() {
+                    if let Some(p) = prev {
+                        if e.index != p + 1 {
+                            contiguous = false;
+                        }
+                    }
+                    prev = Some(e.index);
+                    match &e.payload {
+                        EntryPayload::SnapshotPointer(sp) => pointers.push(json!([e.index, e.term, sp.id])),
+                        EntryPayload::Normal(_) => normals += 1,
+                        _ => {}
+                    }
+                }
+                let snap = match app.raft_store.get_current_snapshot().await? {
+                    Some(sn) => json!({"index": sn.index, "term": sn.term}),
+                    None => Value::Null,
+                };
+                json!({"last_log_index": st.last_log_index, "last_log_term": st.last_log_term, "last_applied": st.last_applied_log,
+                       "term": st.hard_state.current_term, "voted_for": st.hard_state.voted_for, "members": members,
+                       "log_first": entries.first().map(|e| e.index), "log_last": entries.last().map(|e| e.index), "log_count": entries.len(),
+                       "contiguous": contiguous, "pointers": pointers, "normals": normals, "snapshot": snap,
+                       "last_entry": entries.last().map(|e| json!([e.index, e.term, match &e.payload { EntryPayload::Blank => "blank", EntryPayload::Normal(_) => "normal", EntryPayload::ConfigChange(_) => "config", EntryPayload::SnapshotPointer(_) => "pointer" }]))})
+            }
+            // ---- what the raft core of a restarted member does when the leader's commit index arrives: the entries behind its
+            // applied index are taken from its own log and handed to the state machine (replicate_to_state_machine_if_needed)
+            "raft_catch_up" => {
+                let st = app.raft_store.get_initial_state().await?;
+                let es = app.raft_store.get_log_entries(st.last_applied_log + 1, st.last_log_index.saturating_add(1)).await?;
+                let pairs: Vec<(&u64, &ClientRequest)> = es.iter().filter_map(|e| match &e.payload { EntryPayload::Normal(n) => Some((&e.index, &n.data)), _ => None }).collect();
+                let n = pairs.len();
+                if n > 0 {
+                    app.raft_store.replicate_to_state_machine(&pairs).await?;
+                }
+                json!({"applied": n, "from": st.last_applied_log + 1, "to": st.last_log_index})
+            }
+            // ---- the follower side of one AppendEntries RPC exactly as async-raft-ext 0.6.3 handles it (core/append_entries.rs), the raft
+            // core's in-memory (last_log_index, last_log_term) being kept by the caller. `first` = first RPC after the start: the entries
+            // behind the applied index are then taken from the node's own log (initial_replicate_to_state_machine)
+            "follower_append" => {
+                let (prev_index, prev_term) = (op["prev_index"].as_u64().unwrap_or(0), op["prev_term"].as_u64().unwrap_or(0));
+                let (mut fl, mut ft) = (op["last_log_index"].as_u64().unwrap_or(0), op["last_log_term"].as_u64().unwrap_or(0));
+                let mut es = vec![];
+                for x in op["entries"].as_array().cloned().unwrap_or_default() {
+                    let req: ClientRequest = serde_json::from_value(x["req"].clone())?;
+                    es.push(Entry { index: x["index"].as_u64().unwrap_or(0), term: x["term"].as_u64().unwrap_or(1), payload: EntryPayload::Normal(EntryNormal { data: req }) });
+                }
+                let wire = serde_json::to_string(&es)?;
+                let es: Vec<Entry<ClientRequest>> = serde_json::from_str(&wire)?;
+                let mut path = "fast";
+                let mut proceed = es.is_empty() || prev_index == 0 || (prev_index == fl && prev_term == ft);
+                let mut conflict: Option<(u64, u64)> = None;
+                if !proceed {
+                    let got = app.raft_store.get_log_entries(prev_index, prev_index + 1).await?;
+                    match got.first() {
+                        None => {
+                            path = "prev-entry-missing";
+                            conflict = Some((fl, ft));
+                        }
+                        Some(t) if t.term == prev_term => {
+                            path = "consistency-check";
+                            if fl > t.index {
+                                app.raft_store.delete_logs_from(t.index + 1, None).await?;
+                                let _ = app.raft_store.get_membership_config().await?;
+                            }
+                            proceed = true;
+                        }
+                        Some(_) => {
+                            path = "prev-term-differs";
+                            let start = prev_index.saturating_sub(50);
+                            let old = app.raft_store.get_log_entries(start, prev_index).await?;
+                            conflict = Some(match old.iter().find(|e| e.term == prev_term) {
+                                Some(e) => (e.index, e.term),
+                                None => (fl, ft),
+                            });
+                        }
+                    }
+                }
+                if let Some((ci, ct)) = conflict {
+                    json!({"success": false, "conflict": [ci, ct], "path": path})
+                } else {
+                    let _ = proceed;
+                    if !es.is_empty() {
+                        app.raft_store.replicate_to_log(&es).await?;
+                        fl = es.last().map(|e| e.index).unwrap_or(fl);
+                        ft = es.last().map(|e| e.term).unwrap_or(ft);
+                    }
+                    let commit = op["commit"].as_u64().unwrap_or(fl);
+                    let mut applied = 0usize;
+                    if op["first"].as_bool().unwrap_or(false) {
+                        let st = app.raft_store.get_initial_state().await?;
+                        let stop = std::cmp::min(commit, fl) + 1;
+                        let own = app.raft_store.get_log_entries(st.last_applied_log + 1, stop).await?;
+                        let pairs: Vec<(&u64, &ClientRequest)> = own.iter().filter_map(|e| match &e.payload { EntryPayload::Normal(n) => Some((&e.index, &n.data)), _ => None }).collect();
+                        applied = pairs.len();
+                        if !pairs.is_empty() {
+                            app.raft_store.replicate_to_state_machine(&pairs).await?;
+                        }
+                    } else {
+                        let pairs: Vec<(&u64, &ClientRequest)> = es.iter().filter(|e| e.index <= commit).filter_map(|e| match &e.payload { EntryPayload::Normal(n) => Some((&e.index, &n.data)), _ => None }).collect();
+                        applied = pairs.len();
+                        if !pairs.is_empty() {
+                            app.raft_store.replicate_to_state_machine(&pairs).await?;
+                        }
+                    }
+                    json!({"success": true, "path": path, "last_log_index": fl, "last_log_term": ft, "applied": applied})
+                }
             }
             "membership" => {
                 let m = app.raft_store.get_membership_config().await?;
